@@ -114,6 +114,15 @@ func envInt(name string, def int) int {
 	return def
 }
 
+// shard returns (index, count) of this process among the driver's parallel shards.
+func shard() (int, int) {
+	var i, n int
+	if _, err := fmt.Sscanf(os.Getenv("VERIF_SHARD"), "%d/%d", &i, &n); err != nil || n < 1 {
+		return 0, 1
+	}
+	return i, n
+}
+
 func thorough() bool { return os.Getenv("VERIF_TIER") == "thorough" }
 
 func TestMain(m *testing.M) {
